@@ -104,7 +104,7 @@ pub fn case(ctx: &mut Ctx, gi: &GInfo, rule: usize, tape: &[u8]) -> CaseResult {
 pub fn run(world: &World, ctx: &mut Ctx) -> Option<Value> {
     ctx.ev.rule = RULE.to_string();
     // every grammar of the family must have compiled
-    let corpus: Value = std::fs::read_to_string(std::path::Path::new(crate::common::VERIF_ROOT).join("work").join("corpus.json")).ok().and_then(|t| serde_json::from_str(&t).ok()).unwrap_or(Value::Null);
+    let corpus: Value = std::fs::read_to_string(crate::common::work_dir().join("corpus.json")).ok().and_then(|t| serde_json::from_str(&t).ok()).unwrap_or(Value::Null);
     for s in corpus["specs"].as_array().cloned().unwrap_or_default() {
         if s["family"] == "getter" {
             let id = s["id"].as_str().unwrap_or("");
